@@ -4,15 +4,16 @@
 OWN = {
     "C01": {"no_panic", "borrows_are_released"},
     "C02": {"list_not_empty", "preselection_inside_list", "selection_inside_list", "auxiliary_is_the_typed_text", "auxiliary_is_the_composed_text",
-            "returned_list_is_the_scratch_list", "key_appends_one_char_or_nothing", "scratch_list_belongs_to_the_text",
+            "returned_list_is_the_scratch_list", "key_appends_one_char_or_nothing", "shown_list_and_preselection_are_the_assemblys_answer", "scratch_list_belongs_to_the_text",
             # the auxiliary text is the composition only if every event keeps "typed text = what the user is composing": the session clauses are part of the induction
             "terminating_event_clears_composition", "backspace_progress"},
     "C03": {"parts_concatenate_to_input", "splits_punctuation_word_punctuation", "three_conversions_concatenated", "transliteration_is_a_candidate"},
     "C05": {"warm_context_gives_the_same_list", "warm_context_gives_the_same_preselection", "memo_entry_holds_direct_candidates_only",
             "memo_entries_survive_the_event", "memo_entry_is_keyed_by_the_word",
+            "shown_list_and_preselection_are_the_assemblys_answer",
             "context_with_history_gives_the_list_of_a_new_one", "context_with_history_gives_the_preselection_of_a_new_one"},
     "C06": None,   # fixed_session clauses are all C06's; the phonetic glue set is given explicitly in the module
-    "C07": {"autocorrect_entry_is_first", "ranked_best_first", "english_candidate_only_when_enabled_and_not_ansi",
+    "C07": {"autocorrect_entry_is_first", "ranked_best_first", "dictionary_candidates_carry_their_distance", "english_candidate_only_when_enabled_and_not_ansi",
             "english_candidate_is_last_and_is_the_typed_text", "no_candidate_twice"},
     "C08": {"suffix_forms_complete", "memo_entry_holds_direct_candidates_only", "memo_entry_is_keyed_by_the_word"},
     "C09": {"learned_choice_is_preselected_next_time", "committing_the_preselected_candidate_changes_nothing", "other_learned_entries_survive_a_commit",
@@ -22,7 +23,8 @@ OWN = {
     "C11": {"reloaded_context_equals_a_new_one", "reloaded_list_is_in_use", "configuration_is_replaced", "same_layout_keeps_the_method_and_its_word",
             "changed_layout_replaces_the_method", "later_events_see_the_new_configuration", "method_matches_the_configured_layout",
             "method_is_new_or_refreshed_by_the_update", "event_result_is_the_methods_result", "events_use_the_contexts_data", "current_method_is_last",
-            "constructor_consults_the_user_files_whatever_the_options", "data_is_the_same_for_every_layout_and_option"},
+            "constructor_consults_the_user_files_whatever_the_options", "data_is_the_same_for_every_layout_and_option",
+            "reconfigured_context_gives_the_list_of_a_new_one", "reconfigured_context_gives_the_preselection_of_a_new_one"},
     "C15": {"first_candidate_is_the_composed_text", "at_most_nine", "english_candidate_iff_enabled_and_not_ansi_and_different", "english_candidate_is_the_raw_keys",
             "non_emoji_candidates_by_distance", "no_candidate_twice", "dictionary_candidates_are_search_answers_wrapped", "pattern_is_anchored",
             "pattern_has_the_letter_class", "literal_part_has_no_regex_meta_character", "literal_part_is_the_word_without_punctuation", "wildcard_width_by_length",
@@ -30,14 +32,18 @@ OWN = {
             # "the last candidate is the raw key text" of *this* word: the raw keys are empty whenever nothing is composed
             "session_invariant_preserved"},
     "C16": {"ansi_offers_no_emoji_or_raw_text", "english_candidate_only_when_enabled_and_not_ansi", "english_candidate_iff_enabled_and_not_ansi_and_different",
-            "suggestion_carries_the_ansi_switch"},
+            "suggestion_carries_the_ansi_switch"},      # the ANSI clause is also evaluated on the list shown after an option change (reconfiguration)
     "C17": {"punctuation_only_left_untouched", "word_untouched", "leading_quotes_open", "trailing_quotes_close", "smart_quotes_keep_length_and_order",
             "smart_quotes_keep_preselection", "smart_quotes_curl_every_candidate"},
     "C18": {"emoticon_offers_its_emoji_and_keeps_the_literal_text", "emoji_name_offers_all_its_emoji_in_table_order_wrapped", "emoticon_offers_its_emoji",
             "bengali_emoji_name_offers_all_its_emoji_in_table_order_wrapped",
+            # "outside ANSI mode": also when ANSI mode was left a moment ago - the list is the one a new context shows
+            "reconfigured_context_gives_the_list_of_a_new_one",
             # the fixed method looks the emoticon up under the raw keys: they must be the keys of this word only
             "session_invariant_preserved"},
 }
 
 GLUE_C06 = {"flag_matches_state", "terminating_event_clears_composition", "idle_backspace_starts_nothing", "backspace_progress",
-            "nonempty_return_means_ongoing", "empty_return_ends_session"}
+            "nonempty_return_means_ongoing", "empty_return_ends_session",
+            # "behaves from then on exactly like a newly created context": what the next key shows is the answer for the new text, not a remembered one
+            "shown_list_and_preselection_are_the_assemblys_answer"}
